@@ -7,10 +7,10 @@
 package effects
 
 import (
-	"os"
 	"fmt"
 	"go/token"
 	"go/types"
+	"os"
 	"sort"
 	"strings"
 
@@ -271,13 +271,13 @@ type Summary struct {
 
 // Analysis holds summaries.
 type Analysis struct {
-	Prog     *core.Prog
-	Sum      map[*ssa.Function]*Summary
-	benign   func(callee string) bool
-	implsOf  map[string][]*ssa.Function // method name → module methods
-	inScope  func(*ssa.Function) bool
-	bySig    map[string][]*ssa.Function // address-taken functions by signature
-	boundOf  map[*ssa.Function]bool     // candidate entered through a bound method value
+	Prog    *core.Prog
+	Sum     map[*ssa.Function]*Summary
+	benign  func(callee string) bool
+	implsOf map[string][]*ssa.Function // method name → module methods
+	inScope func(*ssa.Function) bool
+	bySig   map[string][]*ssa.Function // address-taken functions by signature
+	boundOf map[*ssa.Function]bool     // candidate entered through a bound method value
 }
 
 func sigKey(sig *types.Signature) string {
